@@ -125,9 +125,14 @@ def generate(seed, tier):
     policy = mrng.choice((["uniform"], ["sticky", 0.5], ["sticky", 0.9], ["sticky", 0.99],
                           ["pct", mrng.randint(1, 3), mrng.choice((300, 1500, 4000))],
                           ["pct", mrng.randint(1, 3), mrng.choice((300, 1500, 4000))]))
+    # line-level pre-emption (races between two statements with no storage call in between) and one
+    # Index object shared by the threads of a process ("stateless, share-able between threads")
+    lrng = random.Random("%s/lines" % seed)
+    lines = [lrng.choice((0.02, 0.1, 0.3)), lrng.choice((3, 10, 30))] if lrng.random() < 0.3 else None
+    share_ix = lrng.random() < 0.4
     return {"prop": ID, "seed": seed, "config": cfg.describe(), "storage_kind": storage_kind,
             "actors": actors, "policy": policy, "schedule": None,
-            "gc_tick": mrng.choice((0, 0, 0.03, 0.1))}
+            "gc_tick": mrng.choice((0, 0, 0.03, 0.1)), "lines": lines, "share_ix": share_ix}
 
 
 def check_history(s, readers):
@@ -223,9 +228,12 @@ def execute(record, trace=False):
     s = SchedSession(record["seed"], cfg=cfg, keep_log=trace, policy=tuple(pol),
                      replay_schedule=record.get("schedule"), storage_kind=record.get("storage_kind", "file"))
     s.k.gc_tick_p = record.get("gc_tick", 0)
+    s.share_ix = bool(record.get("share_ix"))
     try:
         try:
             s.setup_index()
+            if record.get("lines"):
+                s.k.enable_lines(*record["lines"])
             writers, readers, actors = [], [], []
             for a in record["actors"]:
                 if a["kind"] == "writer":
